@@ -341,7 +341,7 @@ fn normalise(text: &str, w: &Window, constants: &std::collections::BTreeSet<u128
     Ok((out, embedded, ambiguous))
 }
 
-fn first_diff(a: &str, b: &str) -> String {
+pub fn first_diff(a: &str, b: &str) -> String {
     let i = a.bytes().zip(b.bytes()).position(|(x, y)| x != y).unwrap_or(a.len().min(b.len()));
     let lo = i.saturating_sub(30);
     let cut = |s: &str| {
